@@ -18,7 +18,8 @@ LEVEL = 'fault_enumeration'
 RULE = ('small reference images (<= ~2 KB) of uamiv, lateral boundary, '
         'temperature, wind, height/pressure, humidity, vertical diffusivity, '
         'one-3D, cloud/rain, land use and GEOS-Chem bpch with 1-3 steps and '
-        'distinct non-zero payloads; for every image ALL proper prefixes are '
+        'distinct non-zero payloads, and the bundled sample files of eight '
+        'CAMx formats; for every image ALL proper prefixes are '
         'opened (exhaustive over cut points), classified as header / '
         'inside-marker / mid-record / record-boundary / step-boundary. '
         'evaluations = prefixes opened; non-trivial = every prefix (each is '
